@@ -128,6 +128,40 @@ class C17(Prop):
                     break
             else:
                 self.trees += 1
+        out.extend(self.engine_agreement(ctx, cases, rng))
+        return out
+
+    def engine_agreement(self, ctx, trees, rng):
+        """CPython's sre against the model's backtracking matcher on the description patterns themselves: the end of the
+        match and the span of every capture group (about a hundred per pattern) must be identical on sentences,
+        mutated sentences and the NOIDLEN splitter - this is the assumption the C16/C17 theorems rest on."""
+        from sansldap import schema
+
+        pats = {"object_class": (0, schema.OBJECT_CLASS_DESCRIPTION), "attribute_type": (1, schema.ATTRIBUTE_TYPE_DESCRIPTION),
+                "dit_content_rule": (2, schema.DIT_CONTENT_RULE_DESCRIPTION)}
+        jobs = []
+        for c in list(ctx["cases"])[:1500] + trees[:400]:
+            i, p = pats[c["kind"]]
+            jobs.append((i, p, c["text"]))
+        for _ in range(300):
+            t = "".join(rng.choice(["1", "2", "0", "10", ".", ".", "{", "}", "'", "a", ""]) for _ in range(rng.randint(1, 10)))
+            jobs.append((3, schema.NOIDLEN_MATCH, t))
+        ans = model.run_batch([[340, i, U(t)] for i, _, t in jobs])
+        out = []
+        self.engine_cases = 0
+        for (i, p, t), a in zip(jobs, ans):
+            m = p.match(t)
+            if m is None:
+                want = [1]
+            else:
+                want = [0, m.end(), [([m.start(g), m.end(g)] if m.span(g) != (-1, -1) else []) for g in range(1, p.groups + 1)]]
+            if canon(a) != canon(want):
+                out.append(({"kind": "engine", "pattern": i, "text": t, "mode": "engine"},
+                            f"CPython's sre and the model's matcher disagree on pattern {i} (end or capture spans) for {t!r}"))
+                if len(out) >= 3:
+                    break
+            else:
+                self.engine_cases += 1
         return out
 
     def judge_tree(self, c, a):
@@ -155,7 +189,8 @@ class C17(Prop):
         return None
 
     def extra_evidence(self, ctx):
-        return {"syntax_trees_checked_against_theorem_hypotheses_and_reference_parser": getattr(self, "trees", 0)}
+        return {"syntax_trees_checked_against_theorem_hypotheses_and_reference_parser": getattr(self, "trees", 0),
+                "engine_agreement_cases_sre_vs_model_matcher_all_group_spans": getattr(self, "engine_cases", 0)}
 
     def classify(self, c):
         return c["kind"] + "-" + c["mode"]
